@@ -68,7 +68,8 @@ Definition mk_op (kind : N) (x : list arg) : option op :=
   | 3 => Some (OSetName (gb (nth_arg x 0)))
   | 4 => Some OGetSchedules
   | 5 => Some (ODelete (gb (nth_arg x 0)))
-  | 6 => Some (OCreate (gz (nth_arg x 0)) (gb (nth_arg x 1)) (gb (nth_arg x 2)) (glnat (nth_arg x 3)))
+  | 6 => Some (OCreate (gz (nth_arg x 0)) (gb (nth_arg x 1)) (gb (nth_arg x 2))
+                       (if gbool (nth_arg x 4) then ASeq (glnat (nth_arg x 3)) else ASet (glnat (nth_arg x 3))))
   | 7 => Some OStop
   | 8 => Some (OSetPosition (gn (nth_arg x 0)))
   | 9 => Some OGetShutterState
